@@ -58,3 +58,30 @@ pub assume_specification<T, E, U, D, F> [std::result::Result::<T, E>::map_or_els
 
 pub assume_specification<T, A: std::alloc::Allocator> [std::collections::VecDeque::<T, A>::is_empty] (q: &std::collections::VecDeque<T, A>) -> (r: bool)
     ensures r == (q@.len() == 0);
+
+// ---- further std functions a realistic edit may introduce (so that it is decided, not "unsupported construct") ----
+pub assume_specification<T, A: std::alloc::Allocator> [std::collections::VecDeque::<T, A>::front] (q: &std::collections::VecDeque<T, A>) -> (r: std::option::Option<&T>)
+    ensures
+        q@.len() == 0 ==> r is None,
+        q@.len() > 0 ==> r == Some(&q@[0]);
+
+pub assume_specification [u32::abs_diff] (a: u32, b: u32) -> (r: u32)
+    ensures r == (if a >= b { a - b } else { b - a });
+
+pub assume_specification<T> [std::option::Option::<T>::or] (o: std::option::Option<T>, b: std::option::Option<T>) -> (r: std::option::Option<T>)
+    where T: std::marker::Destruct
+    ensures r == (if o is Some { o } else { b });
+
+pub assume_specification<T, E> [std::result::Result::<T, E>::unwrap_or] (o: std::result::Result<T, E>, d: T) -> (r: T)
+    where T: std::marker::Destruct, E: std::marker::Destruct
+    ensures r == (match o { Ok(t) => t, Err(_) => d });
+
+pub assume_specification<T, F> [std::option::Option::<T>::or_else] (o: std::option::Option<T>, f: F) -> (r: std::option::Option<T>)
+    where F: std::ops::FnOnce() -> std::option::Option<T> + std::marker::Destruct
+    requires o is None ==> call_requires(f, ()),
+    ensures match o { Some(t) => r == Some(t), None => call_ensures(f, (), r) };
+
+pub assume_specification<T, F> [std::option::Option::<T>::is_some_and] (o: std::option::Option<T>, f: F) -> (r: bool)
+    where F: std::ops::FnOnce(T,) -> bool + std::marker::Destruct, T: std::marker::Destruct
+    requires o is Some ==> call_requires(f, (o->Some_0,)),
+    ensures match o { Some(t) => call_ensures(f, (t,), r), None => !r };
